@@ -58,6 +58,9 @@ partial def loop (h : IO.FS.Stream) (out : IO.FS.Stream) (cache : VCache) : IO U
     let (ans, cache) := verifyAnswer cache toks
     out.putStrLn ans
     loop h out cache
+  else if ["proverdec", "ckraw", "ppdec", "evalsdec", "proveruse"].contains (toks.headD "") then
+    out.putStrLn (codecAnswer t)
+    loop h out cache
   else if toks.headD "" == "prove" then
     out.putStrLn (proveAnswer t)
     loop h out cache
